@@ -9,6 +9,9 @@ from .sym import EngineError
 
 
 def main():
+    import os, faulthandler
+    if os.environ.get('VERIF_STACK_S'):
+        faulthandler.dump_traceback_later(float(os.environ['VERIF_STACK_S']), repeat=True)     # diagnosis of a slow run: periodic stack dump on stderr
     pid = sys.argv[1]
     try:
         mod = importlib.import_module('props.' + pid)
